@@ -13,7 +13,7 @@ EXPLANATION = (
     "derivative on the stated box; cos/sin of eps enter through rational enclosures, sqrt(1 - eps^2) through its contract); "
     "and the gradient/Hessian contributions are e^T Omega J_i and J_i^T Omega J_j for every vertex pair i <= j of the n-ary edge."
 )
-BOUNDS = "7 error-function families (incl. one in arbitrarily small units and one whose error aliases the pose object) x 4 pose types; box |coordinates| <= 10 for the bounded (non-exact) families; 8 histories (edge differentiated at one state, vertices moved in place / rebound or measurement replaced, differentiated again)"
+BOUNDS = "7 error-function families (incl. one in arbitrarily small units and one whose error aliases the pose object) x 4 pose types; box |coordinates| <= 10 for the bounded (non-exact) families; 8 histories (edge differentiated at one state, vertices moved in place / rebound or measurement replaced, differentiated again, compared with fresh objects of the same values; all vertices marked fixed)"
 OUTSIDE = "NOT decided: truncation bounds for rotational increments of the SE(3) relative-pose family (only its translation increments, where the forward difference is exact, are checked); NOT decided: the truncation bound of the relative-pose family for the entries d(translation rows)/d(rotation of the reference vertex) (degree-3 inequality with trig/sqrt enclosures: both z3 versions answer unknown within 10 minutes); NOT decided: 'graphs built from such edges converge to the same optimum as with exact Jacobians' (multi-iteration numerical convergence, same obstacle as C05); floating-point cancellation error 2u|e|/eps of the difference quotient"
 ASSUMPTIONS = ["dual-number derivative semantics (validated against central differences)", "unit quaternions", "rational enclosures of cos(1e-6), sin(1e-6)", "sqrt contract"]
 
@@ -157,6 +157,9 @@ def _case(fam, kind, deep=False, history=None):
             elif history == "rebind":
                 for v, p in zip(verts, targets):
                     v.pose = p
+            elif history == "fixedflags":
+                for v in verts:
+                    v.fixed = True  # (optimize() leaves vertices[0].fixed set): the Jacobian is still the derivative
             elif history == "estimate":
                 est = P.real("z_new") if fam == "range2" else P.vector("z_new", len(est))
                 e.estimate = est
@@ -164,6 +167,20 @@ def _case(fam, kind, deep=False, history=None):
         before_vals = [v.pose.to_array() for v in verts]
         J = g.BaseEdge.calc_jacobians(e)
         P.check("one_jacobian_per_vertex", len(J) == arity)
+        if history is not None:
+            # what the used edge / vertex / pose objects report now is what FRESH objects holding the same values report
+            def rebuild(p):
+                a = p.to_array()
+                if kind in ("R2", "R3"):
+                    return type(p)(a)
+                return type(p)(a[:2], a[2]) if kind == "SE2" else type(p)(a[:3], a[3:])
+
+            fresh_verts = [g.Vertex(i, rebuild(v.pose)) for i, v in enumerate(verts)]
+            e_fresh = E(list(range(arity)), om, e.estimate, vertices=fresh_verts)
+            if fam == "scaledrelpos":
+                e_fresh.scale = scale
+            for k, (Ja, Jb) in enumerate(zip(J, g.BaseEdge.calc_jacobians(e_fresh))):
+                P.check_eq("same_as_fresh_objects_%d" % k, Ja, Jb)
         for k, v in enumerate(verts):
             P.check("pose_restored_object_%d" % k, type(v.pose) is type(before[k]))
             P.check_eq("pose_restored_%d" % k, v.pose.to_array(), before_vals[k], tol=1e-15)
@@ -234,6 +251,6 @@ def cases(tier):
         # probing aid only (not part of any registered command): the entries documented as NOT decided
         out.append(Case("relpose-SE2-deep", _case("relpose", "SE2", deep=True), timeout=60, old_timeout=120, validate=1, shards=4, val_tol=1e-3, feas_timeout_ms=1500))
     # histories: the edge was already differentiated at another state (caches / remembered sparsity on the edge object)
-    for fam, kind, mode in [("relpos", "R2", "inplace"), ("relpos", "SE2", "inplace"), ("prior", "R2", "estimate"), ("prior", "SE2", "inplace"), ("range2", "R2", "inplace"), ("range2", "R2", "rebind"), ("range2", "R2", "estimate"), ("midpoint", "R2", "rebind")]:
+    for fam, kind, mode in [("relpos", "R2", "inplace"), ("relpos", "SE2", "inplace"), ("prior", "R2", "estimate"), ("prior", "SE2", "inplace"), ("range2", "R2", "inplace"), ("range2", "R2", "rebind"), ("range2", "R2", "estimate"), ("midpoint", "R2", "rebind"), ("range2", "R2", "fixedflags"), ("relpos", "SE2", "fixedflags")]:
         out.append(Case("history-%s-%s-%s" % (mode, fam, kind), _case(fam, kind, history=mode), timeout=30 if tier == "quick" else 300, old_timeout=60 if tier == "quick" else 300, validate=2, val_tol=1e-3, feas_timeout_ms=1500))
     return out
